@@ -140,6 +140,19 @@ CHECKS = {
         note="Admin by configured name; the five-minute re-evaluation of group-based admin verdicts (directory-backed) is "
              "not driven yet - named here as the unbound clause.",
         ref="DESIGN.md 4 C08"),
+    "C11": dict(
+        module="KMNetblock",
+        technique="TLA+ prefix arithmetic model (TLC, incl. boundary lemma) + TLC-enumerated prefix x boundary-peer x list x "
+                  "site rows on the real library, checkAuth, refresh and read-back paths + TLC trace monitor",
+        text="KMNetblock defines membership by integer prefix arithmetic and the guards: authenticated iff the IPv4 (or "
+             "IPv4-mapped) peer lies in one of the minted blocks, read-back equals the minted blocks, refresh keeps identity "
+             "and blocks and works only from inside, corrupted extensions never authenticate and never panic. TLC checks the "
+             "reference against the guards plus the boundary lemma for every prefix length and enumerates 5.3k rows; each is "
+             "executed with a really minted (or deliberately corrupted, CA-signed) certificate presented with a really "
+             "verified chain and the logged integers are judged by the TLC monitor.",
+        note="Addresses below 128.0.0.0 only (32-bit signed TLC integers); blocks minted in network-address form as the "
+             "handler's CIDR parsing yields.",
+        ref="DESIGN.md 4 C11"),
 }
 PENDING_REASON = "check not built yet in this session (specification module planned in DESIGN.md section 4); not claimed until its check runs clean on the unchanged tree"
 ALL = ["C%02d" % i for i in range(1, 21)]
